@@ -60,7 +60,11 @@ func init() {
 			if c.Suite == "tall" {
 				cfgs = []InstCfg{{Kind: "pollard"}, {"mapfull", 0}, {"mapfull", uint8(12 + c.Index%52)}, {"mappartial", 63}}
 			}
-			c01Check(c, histScenario{History: h, Cfgs: cfgs})
+			mode := ""
+			if c.Suite == "rand" {
+				mode = map[int]string{7: "readd", 8: "prefix"}[c.Index%10]
+			}
+			c01Check(c, histScenario{History: h, Cfgs: cfgs, LeafMode: mode})
 		},
 		Replay: func(c *core.Ctx, raw json.RawMessage) {
 			s, err := parseHistScenario(raw)
@@ -102,10 +106,11 @@ func c01Check(c *core.Ctx, s histScenario) {
 		if len(collide) != 3 {
 			return
 		}
-		w.LeafOverride = func(blockIdx, addIdx int, before *rm.Model) (Hash, bool) {
+		w.LeafOverride = func(blockIdx, addIdx int, rec *BlockRec) (Hash, bool) {
 			if blockIdx != collide[0] || addIdx != collide[1] {
 				return Hash{}, false
 			}
+			before := rec.Before
 			f := before.Forest()
 			var internal []uint64
 			for pos := uint64(0); pos < uint64(2)<<f.H; pos++ {
@@ -127,6 +132,10 @@ func c01Check(c *core.Ctx, s histScenario) {
 		}
 	}
 	override(w)
+	if len(collide) != 3 && s.LeafMode != "" {
+		w.SetLeafMode(s.LeafMode)
+		c.Count("histories_with_leaf_mode_"+s.LeafMode, 1)
+	}
 	nontrivial := false
 	for bi, b := range s.History.Blocks {
 		rec, ok := w.ApplyBlock(b, fail)
@@ -151,8 +160,8 @@ func c01Check(c *core.Ctx, s histScenario) {
 		if c.Suite == "tall" && variant == 0 {
 			continue // one-leaf blocks on tall forests cost too much for no new shape
 		}
-		if len(collide) == 3 {
-			break // rebatching changes block indexes; the collision suite is about hash-keyed indexes only
+		if len(collide) == 3 || s.LeafMode != "" {
+			break // rebatching changes block indexes, which the adversarial leaf hashes are derived from
 		}
 		w2 := NewWorld(s.History.Tag, []InstCfg{{Kind: "pollard"}, {"mapfull", s.Cfgs[len(s.Cfgs)-1].Rows}})
 		fail2 := func(site, clause, trigger, detail string) {
